@@ -45,7 +45,7 @@ def st_fields(block):
     return {"basis": d.get("basis"), "cache": d.get("cache"), "factorok": d.get("factorok"), "qstatus": d.get("qstatus")}
 
 
-KEEP = ("chgobj", "chgrhs", "chgbound", "chgbounds", "chgobjsense")
+KEEP = ("chgobj", "chgrhs", "chgobjsense")
 MATRIX = ("chgcoef", "chgsense", "chgsenses", "chgrange")
 
 
@@ -97,6 +97,9 @@ def session_tokens(tr):
             toks.append("delcols:" + after["basis"])
         elif w == "chgobjsense" and op.split(" ")[2] == sense:
             toks.append("failed")          # same sense as before: the wrapper does nothing
+        elif w in ("chgbound", "chgbounds"):
+            # oracle: whether the stored basis had to be repaired (a non-basic column at a bound that became infinite)
+            toks.append("chgbound:" + after["factorok"])
         elif w in KEEP:
             toks.append("chgkeep")
         elif w in MATRIX:
